@@ -243,6 +243,7 @@ def run(repo: Repo, tier: str, res: CheckResult, seed: int = 0) -> None:
                 n_collect += collect_rule(repo, eng, node, m, m.qualname(node), res)
     res.count("ESC.collecting-handlers", n_collect, 8)
 
+    hashing_factories(repo, res)
     # generated model loaders
     from .. import genprog
     genprog.c04_checks(repo, tier, res, eng, seed)
@@ -251,3 +252,40 @@ def run(repo: Repo, tier: str, res: CheckResult, seed: int = 0) -> None:
     res.coverage["operations_evaluated"] = eng.ops_evaluated
     res.coverage["trusted_base"] = ["Python ast", "sa/exc_model.py effect table", "data universe of DESIGN.md §0"]
     res.assumptions = list(ASSUMPTIONS)
+
+
+def hashing_factories(repo: Repo, res: CheckResult) -> None:
+    """The iterable loaders hand the LOADED elements to the container factory. For set / frozenset targets the factory hashes
+    them: an element loaded as is (Set[Any]) from JSON-shaped data such as [[1]] is a list, `set(...)` raises TypeError and
+    nothing translates it (the escape analysis treats a factory applied to loaded values as internal -- assumption A5 -- so
+    this clause is decided here, structurally)."""
+    m = repo.mod("morphing/iterable_provider")
+    ci = m.classes.get("IterableProvider")
+    if ci is None:
+        raise AnalysisError("anchor vanished: IterableProvider")
+    impl = ci.attrs.get("ABC_TO_IMPL")
+    hashing = isinstance(impl, ast.Dict) and any(norm(v) in ("set", "frozenset") for v in impl.values)
+    n = 0
+    for mname, fn in ci.methods.items():
+        if "loader" not in mname:
+            continue
+        for cl in [f for f in ast.walk(fn) if isinstance(f, ast.FunctionDef) and f is not fn]:
+            for c in ast.walk(cl):
+                if not (isinstance(c, ast.Call) and isinstance(c.func, ast.Name) and c.func.id == "iter_factory"):
+                    continue
+                n += 1
+                res.evaluated(f"hashing-factory:{ci.name}.{mname}.{cl.name}", True)
+                guarded = False
+                p = m.parent(c)
+                while p is not None and p is not cl:
+                    if isinstance(p, ast.Try) and any(h.type is not None and "TypeError" in norm(h.type) for h in p.handlers) \
+                            and any(c is x for b in p.body for x in ast.walk(b)):
+                        guarded = True
+                    p = m.parent(p)
+                if hashing and not guarded:
+                    res.add(Finding("C04", "ESC.hashing-factory-on-loaded-elements", m.rel, f"{ci.name}.{mname}.{cl.name}",
+                                    "iter_factory(<loaded elements>) with a set / frozenset factory",
+                                    f"`{norm(c)[:60]}`: for set / frozenset targets the factory hashes the loaded elements; an element "
+                                    "loaded as is from [[1]] (Set[Any]) is unhashable and the TypeError of `set(...)` escapes the loader",
+                                    c.lineno))
+    res.count("ESC.container-factory-applications", n, 4)
